@@ -298,6 +298,34 @@ impl<'a> Tr<'a> {
             push_bind(lines, &format!("let {} ← ", Self::bind_pattern(None, &bound)), c.lines);
             return Ok(false);
         }
+        // `let Range { mut start, end } = a..b;` (the expansion of konst's for_range!)
+        if let (Pat::Struct(ps), Expr::Range(r)) = (pat, peel_paren(&init.expr)) {
+            if ps.path.segments.last().map(|s| s.ident == "Range").unwrap_or(false) && matches!(r.limits, syn::RangeLimits::HalfOpen(_)) {
+                if let (Some(a), Some(b)) = (&r.start, &r.end) {
+                    let ua = self.expr(a, None)?;
+                    let at = ua.ty.clone();
+                    let ub = self.expr(b, Some(&at))?;
+                    lines.extend(ua.pre);
+                    lines.extend(ub.pre);
+                    for f in &ps.fields {
+                        let (fname, val) = match &f.member {
+                            syn::Member::Named(id) if id == "start" => ("start", ua.term.clone()),
+                            syn::Member::Named(id) if id == "end" => ("end", ub.term.clone()),
+                            _ => return self.err(l.span(), "unknown field in a Range pattern"),
+                        };
+                        let _ = fname;
+                        match peel_pat(&f.pat) {
+                            Pat::Ident(pi) => {
+                                lines.push(format!("let {} := {}", lean_ident(&pi.ident.to_string()), val));
+                                self.declare(&pi.ident.to_string(), at.clone());
+                            }
+                            _ => return self.err(l.span(), "nested pattern in a Range pattern"),
+                        }
+                    }
+                    return Ok(false);
+                }
+            }
+        }
         // `let p = s.as_ptr();` / `s.as_mut_ptr()`: remember what p points into
         if let (Pat::Ident(pi), Expr::MethodCall(m)) = (pat, peel(&init.expr)) {
             let mn = m.method.to_string();
